@@ -932,7 +932,7 @@ def selftest(text, committed):
     try:
         base = translate(text)
     except TranslationError as e:
-        return [("translator-selftest", False, "the unchanged source does not translate: %s" % e)]
+        return [("translator-selftest", False, "the source under test does not translate: %s" % e)]
     same = committed is not None and base == committed
     unchanged = source_fingerprint(text) == COMMITTED_FROM
     # the unchanged source must reproduce the committed file byte for byte; a CHANGED source (other fingerprint) is
